@@ -114,6 +114,8 @@ class Ctx:
         with open(outp, "w") as fo:
             rc = subprocess.call(cmd, cwd=d, stdout=fo, stderr=subprocess.STDOUT, env=env)
         dt = time.time() - t
+        if os.environ.get("VERIF_TIMING"):
+            log("[timing] %6.1fs tlc %s %s" % (dt, module, name))
         res = parse_tlc(outp)
         res.update({"rc": rc, "wall_s": round(dt, 2), "cmd": " ".join(cmd[3:]), "stdout": outp, "dir": d,
                     "name": name})
@@ -157,13 +159,18 @@ class Ctx:
 
     def go_build(self, pkg, *, tags="verif", race=False, out=None):
         self.go_sync()
+        if os.environ.get("VERIF_RACE"):   # diagnostic: every harness binary under the race detector
+            race = True
         out = out or self.path("bin-" + os.path.basename(pkg) + ("-race" if race else ""))
         cmd = ["go", "build", "-tags", tags, "-o", out]
         if race:
             cmd.append("-race")
         cmd.append(pkg)
+        t = time.time()
         p = subprocess.run(cmd, cwd=self.harness_dir(), env=goenv(), stdout=subprocess.PIPE, stderr=subprocess.STDOUT,
                            text=True)
+        if os.environ.get("VERIF_TIMING"):
+            log("[timing] %6.1fs go build %s%s" % (time.time() - t, pkg, " -race" if race else ""))
         if p.returncode != 0:
             # a tree that does not compile is not a verdict about the property
             raise Infra("go build failed for %s:\n%s" % (pkg, p.stdout[-4000:]))
@@ -171,8 +178,11 @@ class Ctx:
 
     def run(self, cmd, *, timeout=600, cwd=None, env=None, stdin=None, check=True, stdout=None):
         full = ["timeout", "-k", "10", str(timeout)] + cmd
+        t = time.time()
         p = subprocess.run(full, cwd=cwd or self.work, env=env or goenv(), stdin=stdin,
                            stdout=stdout or subprocess.PIPE, stderr=subprocess.STDOUT, text=True)
+        if os.environ.get("VERIF_TIMING"):
+            log("[timing] %6.1fs %s" % (time.time() - t, " ".join(os.path.basename(c) for c in cmd[:4])))
         if p.returncode in (124, 137):
             raise Infra("timed out after %ss: %s" % (timeout, " ".join(cmd)))
         if check and p.returncode != 0:
@@ -342,6 +352,15 @@ def main(checks):
     try:
         rc = checks[a.pid](ctx)
     except Infra as e:
+        if ctx.violations:
+            # violations already established on the real code (judged by TLC) stand; what could not be completed
+            # afterwards (for instance a binding self-test that finds no accepted record on a broken tree) is noted
+            log("NOTE %s: the run could not be completed after the violations below had been established: %s" % (a.pid, e))
+            ctx.notes.append("incomplete: %s" % e)
+            sys.exit(ctx.finish("other", {
+                "explanation": "run stopped after %d violation(s) had been established on the real code; not completed: %s"
+                               % (len(ctx.violations), str(e)[:1500]),
+                "samples": [v["key"] for v in ctx.violations[:5]], "exhaustive": False}, None))
         log("INFRA-FAILURE %s: %s" % (a.pid, e))
         sys.exit(2)
     sys.exit(rc)
